@@ -30,6 +30,10 @@ def run_world(world, idx=0, timeout=180, hashseed='0', extra_env=None, keep=Fals
     spec = {'dir': d, 'args': args, 'defaults': world.get('defaults', [])}
     if 'script_parts' in world:
         spec['script_parts'] = world['script_parts']
+    if world.get('preset'):
+        spec['preset'] = True
+    if 'warnings' in world:
+        spec['warnings'] = world['warnings']
     if 'child_cwd' in world:
         spec['child_cwd'] = world['child_cwd']
     env = fw.impl_env(dict(extra_env or {}, VW_WORLD=wpath, VW_TRACE=trace), hashseed)
